@@ -211,6 +211,13 @@ pub fn gen_c05(tier: &str, seed: u64, emit: &mut dyn FnMut(String)) {
             else { let l = w.live_pmt_pids(); if !l.is_empty() { let pid = *rng.pick(&l); w.bump_pmt(pid, &mut rng); let big = rng.chance(1, 6); w.send_pmt(pid, "new", 0, big, &mut rng); } }
             w.probes(&mut rng);
         }
+        if i % 23 == 15 {
+            // role collision, last step of the history: a program map lists its OWN PID as an elementary stream; the stream
+            // handler built from that entry replaces the map's handler (the later table application wins)
+            let l = w.live_pmt_pids(); if !l.is_empty() { let q = l[0];
+                { let m = w.pmts.get_mut(&q).unwrap(); m.version = (m.version + 1) & 31; if !m.streams.iter().any(|s| s.1 == q) { m.streams.push((0x1b, q)); } }
+                w.send_pmt(q, "new", 0, false, &mut rng); w.probes(&mut rng); w.probes(&mut rng); }
+        }
         emit(w.finish(0, &mut rng));
     }
 }
